@@ -63,6 +63,12 @@ func runC13(c *fw.Case) {
 		c.Count("frames_whose_first_row_equals_the_names", 1)
 	} else {
 		root, err = model.MakeRoot(rng, o, 4, true)
+		if err == nil && rng.Intn(8) == 0 {
+			if ar := aggregateDerive(rng, root); ar != nil {
+				root = ar
+				c.Count("roots_produced_by_aggregate", 1)
+			}
+		}
 	}
 	if err != nil || len(root.Shadow.Cols) == 0 {
 		c.Count("root_build_failed", 1)
